@@ -267,6 +267,55 @@ Qed.
 Theorem set_z_keeps_xy_without_callback dz e1 e2 ip : set_z None dz e1 e2 ip = ip.
 Proof. reflexivity. Qed.
 
+(* ====================================================================== DoSplitOp *)
+(* every vertex of the two resulting rings is a vertex of the ring it was called on or THE point the callback
+   returned (without a callback: the local ip as GetSegmentIntersectPt left it) *)
+Theorem split_vertices_accounted cb prev split snext nn rest g kept newr :
+  do_split_op_z cb (prev :: split :: snext :: nn :: rest) g = Some (kept, newr) ->
+  forall v, In v (match kept with Some k => k | None => [] end ++ match newr with Some n => n | None => [] end) ->
+  In v (prev :: split :: snext :: nn :: rest) \/ v = split_ip cb prev split snext nn g.
+Proof.
+  cbn [do_split_op_z]. intros H v Hv. destruct (sg_small g).
+  - injection H as <- <-. destruct Hv.
+  - injection H as <- <-. apply in_app_or in Hv. destruct Hv as [Hv|Hv].
+    + destruct (point_eqb3 _ prev || point_eqb3 _ nn).
+      * left. cbn [In] in *. tauto.
+      * cbn [In] in *. destruct Hv as [<-|[<-|[<-|Hv]]]; auto 6.
+    + destruct (sg_keep g); [|destruct Hv]. cbn [In] in *. destruct Hv as [<-|[<-|[<-|[]]]]; auto 6.
+Qed.
+
+(* the vertex inserted into the kept ring and the first vertex of the split-off ring are one and the same point,
+   z included *)
+Theorem split_same_point_both_rings cb prev split snext nn rest g k n :
+  do_split_op_z cb (prev :: split :: snext :: nn :: rest) g = Some (Some k, Some n) ->
+  hd_error n = Some (split_ip cb prev split snext nn g) /\
+  (length k = S (length (nn :: rest)) \/ nth_error k 1 = Some (split_ip cb prev split snext nn g)).
+Proof.
+  cbn [do_split_op_z]. intros H. destruct (sg_small g); [discriminate|]. destruct (sg_keep g); [|discriminate].
+  injection H as <- <-. split; [reflexivity|].
+  destruct (point_eqb3 _ prev || point_eqb3 _ nn); [left|right]; reflexivity.
+Qed.
+
+(* z-erasure: a callback that leaves x,y alone does not change the x,y of the result *)
+Theorem split_erase cb ring g :
+  (forall f, cb = Some f -> forall a b c d p, erase (f a b c d p) = erase p) ->
+  match do_split_op_z cb ring g, do_split_op_z None ring g with
+  | Some (k, n), Some (k', n') => option_map (map erase) k = option_map (map erase) k' /\ option_map (map erase) n = option_map (map erase) n'
+  | None, None => True
+  | _, _ => False
+  end.
+Proof.
+  intros Hf. destruct ring as [|prev [|split [|snext [|nn rest]]]]; cbn [do_split_op_z]; auto.
+  destruct (sg_small g); [split; reflexivity|].
+  assert (E : erase (split_ip cb prev split snext nn g) = erase (split_ip None prev split snext nn g)).
+  { unfold split_ip. destruct cb as [f|]; [apply (Hf f eq_refl)|reflexivity]. }
+  assert (Q : forall v, point_eqb3 (split_ip cb prev split snext nn g) v = point_eqb3 (split_ip None prev split snext nn g) v).
+  { intros v. unfold point_eqb3, x3, y3. unfold erase in E. rewrite E. reflexivity. }
+  rewrite !Q. split.
+  - destruct (point_eqb3 _ prev || point_eqb3 _ nn); cbn [option_map map]; [reflexivity|]. rewrite E. reflexivity.
+  - destruct (sg_keep g); cbn [option_map map]; [rewrite E|]; reflexivity.
+Qed.
+
 (* hypotheses satisfiable / kernels non-trivial on a concrete Z-labelled path *)
 Example erase_nonvacuous :
   let p := [mk3 0 0 5; mk3 5 0 6; mk3 10 0 7; mk3 10 10 8; mk3 0 10 9] in
